@@ -91,6 +91,22 @@ def run(prop, tier):
                        "input_unchanged": r["flags"]["input_unchanged"]},
              "extra": r["extra"], "out2": r.get("out2", codec.T("absent"))}
         vrecs.append(v)
+    # wild traces: what the repository's own tests feed to these passes (recorder plug-in, FUNC_ADL_VERIF=1)
+    import wild
+    wild_passes = {"C17": ["tofunc"], "C19": ["aggregate"], "C15": ["extract_md", "remove_empty_md"]}[prop]
+    nwild = 0
+    for wp in wild_passes:
+        for w in wild.pass_records(prop, wp, len(vrecs)):
+            if w["in"]["k"] in ("opaque", "malformed") or w["exc"] != "" or w["out"]["k"] in ("opaque", "malformed"):
+                continue      # (a test that expects the pass to raise, or a node kind outside the term algebra)
+            w["id"] = len(vrecs)
+            vrecs.append({k: w[k] for k in ("id", "pass", "in", "out", "exc", "flags", "extra", "out2")})
+            recs.append({"id": w["id"], "pass": wp, "in": w["in"], "out": w["out"], "exc": w["exc"],
+                         "flags": w["flags"], "extra": w["extra"]})
+            jobs.append((w["id"], wp, w["in"], {}))
+            nwild += 1
+    fam_counts["wild (repository tests under the recorder)"] = {"generated": nwild, "replayed": nwild, "budget": 0,
+                                                                "exhaustive": True, "suite": wild.suite_summary()}
     verdicts, vst = common.validate(prop, plan["pass"], "TracePass", vrecs)
     rep.add_tlc(vst)
     rep.traces = len(vrecs)
